@@ -416,9 +416,9 @@ def run(rep):
                 'd=1,2,3 streams (300 grid builds with unbounded queries, 400 off-grid builds, 20-24 '
                 'queries each); 511/513/1030 rows at page size 512; the query passed as tuple / list / '
                 'ndarray / numpy scalars / strided view / float32 array / ints.  NaN query sides are not '
-                'asked (not a box).  Counted, not reported (decision of the orchestrator; same mechanism '
-                'C08 models and C13 counts): the constructor raises ZeroDivisionError for a box set of '
-                'total width 0 on an axis at |coordinate| >= 2^53')
+                'asked (not a box).  Box sets of total width 0 on an axis at |coordinate| >= 2^53 '
+                '(the +1 widening is absorbed; the constructor raised ZeroDivisionError until /repo '
+                '7cf01a0) are an ordinary class: 40 builds, oracle + model')
     pub, pub1, itree, ifull = [], [], [], []
     nb = 0
     seen = set()
@@ -549,8 +549,9 @@ def run(rep):
     rep.extra['t_builds_s'] = round(_t.time() - rep.t0, 1)
     run_reused(rep, tier)
     # second input class: unbounded / huge / tiny / one-ulp / decimal coordinates (c03_float.py)
+    finish_float = None
     if not rep.violations:
-        F.run_float(rep, tier, sys.modules[__name__])
+        finish_float = F.run_float(rep, tier, sys.modules[__name__], defer=True)
         rep.extra['t_float_s'] = round(_t.time() - rep.t0, 1)
     if rep.violations:
         join()
@@ -559,6 +560,8 @@ def run(rep):
         return
     run_sizes(rep, tier)
     rep.extra['t_sizes_s'] = round(_t.time() - rep.t0, 1)
+    if callable(finish_float):
+        finish_float()          # the kernel side of c03_float ran beside run_sizes
     join()
     rep.extra['t_joined_s'] = round(_t.time() - rep.t0, 1)
     if rep.violations:
